@@ -69,6 +69,10 @@ def expected(seed, n):
         e[('logical_or_none', r)] = '0'
         for root in range(n):
             e[('bcast_%d' % root, r)] = '%d r%d||x"y|' % (inp(seed, root, 9), root)
+        e[('bcast_json_object', r)] = '{"a":1,"only_on_root":true}'
+        e[('bcast_json_array', r)] = '[1,2,3]'
+        e[('bcast_json_vector', r)] = '{"k":"v"};[true,null];'
+        e[('bcast_std_map', r)] = 'x=1;'
         e[('is_same_yes', r)] = '1'
         e[('is_same_last', r)] = str(int(n == 1))
         e[('is_same_first', r)] = str(int(n == 1))
